@@ -18,14 +18,17 @@ MANIFEST = {
             "table by running both on the same programs x bases (low, high, straddling 2^31/2^32/2^47/2^63) x base known at init or "
             "assigned at relocation x address table last or not; the Lean monitor decodes every absolute reference of the real "
             "relocated image (rel32, or FF /2|/4 + slot content).",
-    "note": "reloc_correct / reloc_abs_correct / reloc_rel_correct (Props/C04E) compose the relocate_to_base fold with the ownership "
-            "invariant for every program and base (1/2/4/8-byte values, address-table rel32). Not yet proved: persistence of the slot "
-            "content to the end of the fold, the payload-to-label link of RelToAbs entries, end-to-end known_base_equiv (the monitor "
-            "evaluates them on every explored program x base). Trusted: as C03. JitRuntime::_add (allocation + copy loop) is not modelled: the relocated section bytes and layout are "
-            "compared instead; executing the code is not part of the check. x86 [ABSOLUTE] memory operands without a label and the "
-            "movabs heuristic are not modelled. Model follows the repaired relocate_to_base tail (fixes/C04-1).",
+    "note": "reloc_correct / reloc_abs_correct / reloc_rel_correct / reloc_table_correct / reloc_label_address (Props/C04E) compose the "
+            "relocate_to_base fold with the ownership, slot-table and payload-to-label invariants for every program and base (1/2/4/8-byte "
+            "values, address-table rel32 and slot content, label addresses). Props/C04K: with the base known the direct encoding reaches "
+            "the target and is the rel32 relocation would write. Props/C04J: the model of JitRuntime::add refines relocate_to_base(rx); "
+            "the real JitRuntime::add / release run on every JIT program (bytes at the returned pointer judged by the monitor and "
+            "compared with the model's image; the allocator is C10's subject, executing the code is not part of the check). "
+            "Trusted: as C03. FS / GS overrides are in the menu (mov ecx,fs:[..], mov eax,gs:[..] incl. the moffs form, add dword fs:[..],imm8): the monitor "
+            "requires the override byte and judges the effective address (the segment base is added by the CPU to either form). Model follows the repaired "
+            "relocate_to_base tail (fixes/C04-1).",
 }
-MODS = ["AsmjitVerif.Props.C04", "AsmjitVerif.Props.C04E"]
+MODS = ["AsmjitVerif.Props.C04", "AsmjitVerif.Props.C04E", "AsmjitVerif.Props.C04K", "AsmjitVerif.Props.C04J"]
 
 
 def addrtab_programs(rng, tier):
@@ -102,16 +105,185 @@ def addrtab_programs(rng, tier):
     return progs
 
 
+JIT_TAIL = ["jitadd", "dump", "jitrelease", "dump"]
+
+
+def jit_programs(rng, tier, rx0):
+    """programs finished by the real JitRuntime::add() / release() instead of flatten + resolve + relocate_to_base"""
+    progs = [["init x64 -"] + JIT_TAIL,                                           # nothing to add: NoCodeGenerated
+             ["init x64 -", "newlabel", "bind 0"] + JIT_TAIL,
+             ["init x64 -", "embed 90"] + JIT_TAIL,
+             ["init x64 -", "newlabel", "elabel 0 8", "zeros 3", "bind 0", "embed c3"] + JIT_TAIL,
+             ["init x64 -", "newlabel", "elabel 0 8", "embed c3"] + JIT_TAIL,                  # label never bound
+             ["init x86 -", "newlabel", "bind 0", "elabel 0 4", "mem mov 0 4"] + JIT_TAIL,     # 32-bit absolute vs a 64-bit rx
+             ["init a64 -", "newlabel", "a64 adrp 0 0", "a64 adr 0 0", "zeros 4096", "bind 0", "elabel 0 8"] + JIT_TAIL]
+    near = [(rx0 + d) & c03.M64 for d in (0x40, 0x1000, 0x100000, 0x7FFF0000, -0x1000, -0x7FFF0000)]
+    far = [0x1000, 0x123456789ABC, (rx0 + 0x80001000) & c03.M64, (rx0 - 0x80001000) & c03.M64, 1 << 63, c03.M64 - 0xFFF]
+    for k in range(12 if tier == "quick" else 60):
+        # address table: all slots needed / none needed (table shrinks to nothing) / mixed, table last or not
+        ts = [rng.sample(far, 3), rng.sample(near, 3), rng.sample(far, 2) + rng.sample(near, 2)][k % 3]
+        body = ["newlabel"]
+        if k % 4 == 3:
+            body += ["jmpabs call d %x" % ts[0], "newsection 8 2147483647"]
+        for t in ts:
+            body.append("jmpabs %s d %x" % (rng.choice(("jmp", "call")), t))
+            if rng.random() < 0.5:
+                body.append("zeros %d" % rng.randrange(1, 9))
+        body += ["bind 0", "elabel 0 8", "memabs mov d %x" % rng.choice(near), "memabs ldrax d %x" % rng.choice(far)]
+        if k % 4 == 3:
+            body += ["section 2", "embed 9090", "elabel 0 8"]
+        progs.append(["init x64 -"] + body + JIT_TAIL)
+    for k in range(3):
+        progs.append(["init x64 -", "jmpabs %s d %x" % (("jmp", "call", "jz")[k], near[k])] + JIT_TAIL)     # only content: a table that shrinks away
+    for arch in ("a64",):
+        for t in near[:4] + far[:2]:
+            progs.append(["init a64 -", "newlabel", "a64abs b %x" % (t & ~3), "a64abs adr %x" % t, "a64abs adrp %x" % (t & ~0xFFF),
+                          "bind 0", "elabel 0 8"] + JIT_TAIL)
+    n = 150 if tier == "quick" else 3000
+    for i in range(n):
+        arch = ("x64", "a64", "x64", "x86", "x64")[i % 5]
+        g = c03.Gen(rng, arch, c04=(i % 2 == 0))
+        for _ in range(rng.choice((6, 15, 30))):
+            g.step()
+        ops = g.finish(0, bind_rest=1.0 if i % 7 else 0.7)[:-4]
+        # the span address is a real pointer (far above 4 GiB, far from the constants of the generator): most programs get
+        # pointer-sized embedded addresses and absolute targets near the span, so that the add succeeds and is judged
+        if i % 6:
+            for j, l in enumerate(ops):
+                w = l.split()
+                if w[0] == "elabel" and arch != "x86" and w[2] in ("1", "2", "4"):
+                    ops[j] = "elabel %s 8" % w[1]
+                elif w[0] == "a64abs":
+                    t = (rx0 + rng.choice((0x40, 0x1000, 0xFF000, -0x1000, 0x7FF0000, -0x7FF0000, 0x8000000))) & c03.M64
+                    ops[j] = "a64abs %s %x" % (w[1], t & (~0xFFF if w[1] == "adrp" else ~3 if w[1] != "adr" else c03.M64))
+                elif w[0] in ("jmpabs", "memabs") and rng.random() < 0.6:
+                    t = (rx0 + rng.choice((0x40, 0x1000, 0x100000, -0x1000, 0x7FFF0000, -0x7FFF0000, 0x80000000, -0x80001000))) & c03.M64
+                    ops[j] = "%s %s %s %x" % (w[0], w[1], w[2], t)
+        progs.append(ops + JIT_TAIL)
+    return progs
+
+
+def jit_pair(h, progs):
+    """harness first (the span address is its choice), then the model with that address; returns normalized per-program answers"""
+    flat = [l for p in progs for l in p]
+    impl, rc, err = vlib.run_lines([str(h)], flat, timeout=14400)
+    ia = c03.split(progs, impl)
+    if rc != 0 or ia is None:
+        return None, None, "harness rc=%d lines %d/%d %s" % (rc, len(impl), len(flat), err[-400:])
+    mprogs = []
+    for p, a in zip(progs, ia):
+        q = list(p)
+        for j, (op, ans) in enumerate(zip(p, a)):
+            if op == "jitadd":
+                w = ans.split()
+                rx = w[3] if w[0] == "Ok" and len(w) >= 4 else next((x[6:] for x in w if x.startswith("probe=")), "0")
+                q[j] = "jitadd %s" % (rx if int(rx, 16) else "1000")
+                a[j] = " ".join(x for x in w if not x.startswith("probe="))
+        mprogs.append(q)
+    model, rc2, err2 = vlib.run_model("C03", [l for p in mprogs for l in p], timeout=14400)
+    ma = c03.split(mprogs, model)
+    if rc2 != 0 or ma is None:
+        return ia, None, "driver rc=%d lines %d %s" % (rc2, len(model), err2[-400:])
+    return ia, ma, None
+
+
+def jit_verdict(p, a, verdict):
+    """what is wrong with the real run of a JitRuntime::add program (None: nothing)"""
+    j = p.index("jitadd")
+    wa, wr = a[j].split(), a[p.index("jitrelease")].split()
+    if verdict != "good":
+        return "the bytes at the pointer JitRuntime::add returned do not address their targets: monitor says %s" % verdict
+    if wa[0] == "Ok" and (len(wa) < 6 or int(wa[4]) == 0 or (wa[5] != "-" and len(wa[5]) != 2 * int(wa[4]))):
+        return "JitRuntime::add returned kOk with an empty / short image: %s" % a[j][:120]
+    if wa[0] == "Ok" and (wr[0] != "Ok" or wr[-1] != "live=0"):
+        return "JitRuntime::release after a successful add: %s" % a[p.index("jitrelease")]
+    if wa[0] != "Ok" and wr[-1] != "live=0":
+        return "a failed JitRuntime::add left memory allocated: %s" % a[p.index("jitrelease")]
+    return None
+
+
+def check_jit(res, h, rng):
+    probe, _, _ = vlib.run_lines([str(h)], ["init x64 -", "embed 90", "jitadd"])
+    w = probe[-1].split() if probe else []
+    rx0 = int(w[3], 16) if len(w) >= 4 and w[0] == "Ok" else 0x7F0000000000
+    progs = jit_programs(rng, res.tier, rx0)
+    ia, ma, fail = jit_pair(h, progs)
+    if ia is None:
+        # locate a crashing program
+        for p in progs:
+            o, rc1, err1 = vlib.run_lines([str(h)], p)
+            if rc1 != 0:
+                first = [l for l in err1.splitlines() if "runtime error" in l or "ERROR: AddressSanitizer" in l or "Assertion" in l][:1]
+                res.violation("real JitRuntime::add aborts on a %d-op program: %s" % (len(p), (first or [err1[-300:]])[0]),
+                              {"ops": p, "stderr": err1[-2000:]}, True, key="jit-abort")
+                return
+        res.violation("JitRuntime::add run failed: " + fail, {}, False, key="jit-protocol")
+        return
+    if ma is None:
+        res.violation("JitRuntime::add run failed: " + fail, {}, False, key="jit-protocol")
+        return
+    verdicts = c03.judge(progs, ia)
+    if verdicts is None:
+        res.violation("monitor protocol failure (JitRuntime::add programs)", {}, False, key="jit-protocol")
+        return
+    outcomes = {}
+    badset = set()
+    for i, (p, a) in enumerate(zip(progs, ia)):
+        j = p.index("jitadd")
+        wa, wr = a[j].split(), a[p.index("jitrelease")].split()
+        outcomes[wa[0]] = outcomes.get(wa[0], 0) + 1
+        why = jit_verdict(p, a, verdicts[i])
+        if why and not badset:
+            res.violation("%s (%d-op program)" % (why, len(p)), {"ops": p, "impl": a, "how": "python3 tools/check.py replay <this file>"}, True, key="jit")
+        if why:
+            badset.add(i)
+    diffs = [i for i in range(len(progs)) if ia[i] != ma[i] and i not in badset]
+    if diffs:
+        i = min(diffs, key=lambda j: len(progs[j]))
+        p = progs[i]
+
+        def differs(b):
+            a, m, f = jit_pair(h, [p[:1] + b + JIT_TAIL])
+            return a is not None and m is not None and a != m
+        sp = p[:1] + vlib.ddmin(p[1:-4], differs, max_tests=150) + JIT_TAIL if differs(p[1:-4]) else p
+        a, m, _ = jit_pair(h, [sp])
+        a, m = (a or [[]])[0], (m or [[]])[0]
+        k = vlib.first_diff(a, m)
+        res.violation("correspondence model/implementation differs on JitRuntime::add (%d programs) at op %r: impl=%s model=%s"
+                      % (len(diffs), sp[k] if k is not None and k < len(sp) else "?", (a[k] if k is not None and k < len(a) else "?")[:200],
+                         (m[k] if k is not None and k < len(m) else "?")[:200]),
+                      {"ops": sp, "impl": a, "model": m, "unchecked": "correspondence Model/JitAdd.lean ~ JitRuntime::_add"}, False, key="corr-jit")
+    res.coverage["jit_add_programs"] = len(progs)
+    res.coverage["jit_add_outcomes"] = outcomes
+
+
 def run(res):
     rng = vlib.rng_for(res.seed, PID)
     res.assumptions += c03.ASSUMPTIONS + [
-        "JitRuntime::_add is represented by flatten + resolve + relocate_to_base(base) and the comparison of every section's bytes and layout",
+        "JitRuntime::add is exercised for real (fresh runtime per program, fill pattern 0xCC): the bytes at the returned pointer are judged by the "
+        "monitor and compared with the model's image for that address (Model/JitAdd.lean); the allocator itself is C10's subject, the span "
+        "address is taken from the real run; executing the code is not part of the check",
         "model follows the repaired relocate_to_base tail: fixes/C04-1.patch (address table buffer size set even when the table is not last)"]
     h, broken = c03.prepare(res, PID, MODS)
     if h is None:
         return
     progs = addrtab_programs(rng, res.tier) + c03.gen_programs(rng, res.tier, c04=True)
     c03.check_programs(res, PID, h, progs, broken)
+    check_jit(res, h, rng)
 
 
-replay = c03.replay
+def replay(data):
+    ops = data["replay"].get("ops", [])
+    if "jitadd" not in ops or "jitrelease" not in ops:
+        return c03.replay(data)
+    h = vlib.build_harness("c03")
+    impl, rc, err = vlib.run_lines([str(h)], ops)
+    for o, r in zip(ops, impl):
+        print(o, "->", r[:300])
+    if rc != 0 or len(impl) != len(ops):
+        print(err[-2000:])
+        return 1
+    v = c03.judge([ops], [impl])
+    why = jit_verdict(ops, impl, v[0] if v else "?")
+    print("monitor:", v[0] if v else "?", "| JitRuntime::add/release:", why or "ok")
+    return 1 if why else 0
